@@ -715,12 +715,13 @@ def restore_guard_polarity(tree, recorded):
         body = fn.body
         for k, st in enumerate(body):
             if isinstance(st, ast.If) and not st.orelse and _leaves(st.body) and _leaves(body[k + 1:]):
-                neg = negate(st.test)
-                if ast.dump(st.test) not in recorded and ast.dump(neg) in recorded:
-                    rest = body[k + 1:]
-                    body[k + 1:] = st.body
-                    st.body, st.test = rest, neg
-                    n += 1
+                for neg in (negate(st.test), ast.UnaryOp(op=ast.Not(), operand=st.test)):         # a != b / not a == b: either spelling may be the recorded one
+                    if ast.dump(st.test) not in recorded and ast.dump(neg) in recorded:
+                        rest = body[k + 1:]
+                        body[k + 1:] = st.body
+                        st.body, st.test = rest, neg
+                        n += 1
+                        break
                 break
         ast.fix_missing_locations(fn)
     return n
@@ -923,3 +924,47 @@ def inline_new_procedures(modules, exits):
         elif replaced:
             done.append("%s.%s (%d calls, statements; definition kept)" % (mod, q, replaced))
     return done
+
+
+# ---------------------------------------------------------------------------------------------------------------------
+# X.tensor(a, b) is X @ a @ b ; X.then(a, b) is X >> a >> b      (discopy defines @ / >> as these methods; only calls the confirmed tree did not have)
+# ---------------------------------------------------------------------------------------------------------------------
+_FOLD = {"tensor": ast.MatMult, "then": ast.RShift}
+
+
+def _fold_calls(tree):
+    for c in ast.walk(tree):
+        if isinstance(c, ast.Call) and isinstance(c.func, ast.Attribute) and c.func.attr in _FOLD and c.args and not c.keywords and not any(isinstance(a, ast.Starred) for a in c.args):
+            yield c
+
+
+def fold_calls_of(tree):
+    return sorted({ast.dump(c) for c in _fold_calls(tree)})
+
+
+def load_fold_calls():
+    if not os.path.exists(IFS_TABLE):
+        return {}
+    return {k: set(v) for k, v in json.load(open(IFS_TABLE)).get("fold_calls", {}).items()}
+
+
+def fold_calls_to_operators(tree, recorded):
+    n = 0
+
+    class T(ast.NodeTransformer):
+        def visit_Call(self, c):
+            nonlocal n
+            was = ast.dump(c)
+            self.generic_visit(c)
+            if isinstance(c.func, ast.Attribute) and c.func.attr in _FOLD and c.args and not c.keywords and not any(isinstance(a, ast.Starred) for a in c.args) and was not in recorded \
+                    and not (isinstance(c.func.value, ast.Call) and isinstance(c.func.value.func, ast.Name) and c.func.value.func.id == "super"):
+                r = c.func.value
+                for a in c.args:
+                    r = ast.BinOp(left=r, op=_FOLD[c.func.attr](), right=a)
+                n += 1
+                return ast.copy_location(r, c)
+            return c
+    for i, st in enumerate(tree.body):
+        tree.body[i] = T().visit(st)
+    ast.fix_missing_locations(tree)
+    return n
